@@ -1,0 +1,29 @@
+//go:build verif
+
+// Machine-checked contracts (comment-only; compiled only under the build tag "verif").
+package cloneset
+
+//@ define planned(release, replicas) = clamp(ios_scaled(release.Spec.ReleasePlan.Batches[release.Status.CanaryStatus.CurrentBatch].CanaryReplicas, replicas, true), 0, replicas)
+//@ define kept(p, replicas) = ios_scaled(p, replicas, true)
+
+//@ func (*realController).CalculateBatchContext
+//@ props C01 C07
+//@ requires rc != nil && release != nil && rc.object != nil && rc.WorkloadInfo != nil
+//@ requires 0 <= release.Status.CanaryStatus.CurrentBatch && release.Status.CanaryStatus.CurrentBatch < len(release.Spec.ReleasePlan.Batches)
+//@ requires rc.Replicas >= 0
+//@ requires release.Status.CanaryStatus.NoNeedUpdateReplicas != nil ==> *release.Status.CanaryStatus.NoNeedUpdateReplicas <= rc.Replicas
+//@ ensures ok: result1 == nil ==> result0 != nil
+//@ ensures {C01} planned: result1 == nil ==> result0.PlannedUpdatedReplicas == planned(release, rc.Replicas) && 0 <= result0.PlannedUpdatedReplicas && result0.PlannedUpdatedReplicas <= rc.Replicas
+//@ ensures {C01} exposure_bound: result1 == nil && release.Status.CanaryStatus.NoNeedUpdateReplicas == nil ==> 100 * ((rc.Replicas - kept(result0.DesiredPartition, rc.Replicas)) - result0.PlannedUpdatedReplicas) < imax(rc.Replicas, 1)
+//@ ensures {C01} desired_is_planned: result1 == nil && release.Status.CanaryStatus.NoNeedUpdateReplicas == nil ==> result0.DesiredUpdatedReplicas == result0.PlannedUpdatedReplicas
+//@ ensures {C07} target_suffices: result1 == nil && release.Status.CanaryStatus.NoNeedUpdateReplicas == nil ==> rc.Replicas - kept(result0.DesiredPartition, rc.Replicas) >= result0.DesiredUpdatedReplicas
+
+//@ func (*realController).UpgradeBatch
+//@ props C01 C06
+//@ requires rc != nil && ctx != nil && rc.object != nil && rc.client != nil
+//@ requires ctx.DesiredPartition.Type == 0 || ctx.DesiredPartition.Type == 1
+//@ ensures one_write: #Patch <= 1 && #Update == 0 && #Create == 0 && #Delete == 0
+//@ ensures only_forward: #Patch == 1 ==> kept(old(ctx.CurrentPartition), old(ctx.Replicas)) > kept(old(ctx.DesiredPartition), old(ctx.Replicas))
+//@ ensures idempotent: kept(old(ctx.CurrentPartition), old(ctx.Replicas)) <= kept(old(ctx.DesiredPartition), old(ctx.Replicas)) ==> #Patch == 0 && result == nil
+//@ ensures body_int: #Patch == 1 && old(ctx.DesiredPartition.Type) == 0 ==> patchBody(#Patch.arg3) == sprintf("{\"spec\":{\"updateStrategy\":{\"partition\": %d }}}", as(old(ctx.DesiredPartition.IntVal), "int"))
+//@ ensures body_pct: #Patch == 1 && old(ctx.DesiredPartition.Type) == 1 ==> patchBody(#Patch.arg3) == sprintf("{\"spec\":{\"updateStrategy\":{\"partition\":\"%s\"}}}", old(ctx.DesiredPartition.StrVal))
